@@ -608,6 +608,15 @@ Theorem c12_source_instr_exactly_once_at_quiescence : forall (pc : pconfig) (ms 
 Proof. exact src_pm_exactly_once. Qed.
 Print Assumptions c12_source_instr_exactly_once_at_quiescence.
 
+(* every poll schedule is an instruction schedule: a poll of a task is some number of its instructions in a row
+   ([pstate_eq]: the same per-task state pointwise, the same shared state), so the instruction-level theorems speak
+   about every run the poll-level ones speak about *)
+From RM Require Import C12.ProgSteps.
+Theorem c12_source_polls_are_instruction_schedules : forall (pc : pconfig) (sched : list task),
+  exists ms, pstate_eq (pmrun src_program pc ms) (prun src_program pc sched).
+Proof. exact src_polls_are_instruction_schedules. Qed.
+Print Assumptions c12_source_polls_are_instruction_schedules.
+
 Example c12_nonvacuous_instr :
   let s1 := pmrun src_program two_fill [0; 0; 0; 0; 0; 1; 1] in
   req (psh s1) = 1 /\ calls (psh s1) = [] /\ lock (psh s1) 0 = Some 0 /\ waiting (snd (ppcs s1 1)) = true /\
